@@ -137,6 +137,8 @@ def registry_snapshot(reg):
         "nonmult": sorted({d.name for d in reg._units.values() if not d.is_multiplicative}),
         "nit": reg.non_int_type.__name__,
         "case_sensitive": reg.case_sensitive,
+        "lazy": sorted(getattr(reg, "_lazy_units", ())),
+        "tracks_lazy": hasattr(reg, "_lazy_units"),
     }
 
 
@@ -299,10 +301,12 @@ class Pool:
 
     def __init__(self, reg):
         self.reg = reg
-        self.canon = sorted({d.name for d in reg._units.values()})
+        lazy = set(getattr(reg, "_lazy_units", ()))      # prefixed names written while the registry was built:
+        self.canon = sorted({d.name for d in reg._units.values()} - lazy)   # keys of _units, but not spellings
         self.mult = [n for n in self.canon if reg._units[n].is_multiplicative]
         self.prefixes = sorted({d.name for d in reg._prefixes.values() if d.name})
         self.nit = reg.non_int_type
+        self.rejected = []               # generated names the registry refused (reported, never fatal)
 
     def exponent(self, rng):
         if rng.random() < 0.75:
@@ -323,11 +327,16 @@ class Pool:
 
     def container(self, rng, n=None, prefixed=None):
         n = rng.choice([1, 1, 2, 2, 3, 4]) if n is None else n
-        d = {}
-        while len(d) < n:
-            d[self.name(rng, prefixed)] = self.exponent(rng)
-        for k in d:                       # register lazily defined prefixed names in this registry
-            self.reg.parse_units(k)
+        d, tries = {}, 0
+        while len(d) < n and tries < 50:
+            tries += 1
+            nm = self.name(rng, prefixed)
+            try:                          # registers lazily defined prefixed names in this registry
+                self.reg.parse_units(nm)
+            except Exception as e:
+                self.rejected.append((nm, type(e).__name__))
+                continue
+            d[nm] = self.exponent(rng)
         return self.reg.UnitsContainer(d)
 
     def obj(self, rng, kind=None, magkind=None):
@@ -379,7 +388,11 @@ def part_objects(R, pools, app):
         for nm in names:
             if nm in pool.mult and rng.random() < 0.5:
                 nm = rng.choice(pool.prefixes) + nm
-            pool.reg.parse_units(nm)
+            try:
+                pool.reg.parse_units(nm)
+            except Exception as e:
+                pool.rejected.append((nm, type(e).__name__))
+                continue
             uc = pool.reg.UnitsContainer({nm: pool.exponent(rng)})
             objs.append((pool, pool.reg.Unit(uc) if rng.random() < 0.5 else pool.reg.Quantity(gen_magnitude(rng), uc)))
         for _ in range(n_rand):
@@ -902,7 +915,7 @@ def part_subprocess(R, pools, objs):
             continue
         snap = res["snapshot"]
         # lazy default registry == explicitly built one, table by table
-        for tab in ("units", "prefixes", "suffixes", "nonmult", "nit", "case_sensitive"):
+        for tab in ("units", "prefixes", "suffixes", "nonmult", "nit", "case_sensitive", "lazy", "tracks_lazy"):
             R.oracle(jsonable(snap[tab]) == jsonable(explicit[tab]) if tab not in ("units", "prefixes") else
                      [tuple(x) for x in snap[tab]] == [tuple(x) for x in explicit[tab]],
                      f"lazy-equals-explicit:table:{tab}", f"the lazily built default registry differs from an explicit one in {tab}", {"child": c})
@@ -974,7 +987,8 @@ def coq_app0(snap):
     pairs = lambda l: coq_list([f"({coq_str(a)}, {coq_str(b)})" for a, b in l])
     strs = lambda l: coq_list([coq_str(a) for a in l])
     return (f"Definition app0 : sreg := mk_sreg 0 {NIT[{'float': float, 'Fraction': F, 'Decimal': Decimal}[snap['nit']]]} "
-            f"{pairs(snap['units'])} {pairs(snap['prefixes'])} {strs(snap['suffixes'])} {strs(snap['nonmult'])}.\n")
+            f"{pairs(snap['units'])} {pairs(snap['prefixes'])} {strs(snap['suffixes'])} {strs(snap['nonmult'])} "
+            f"{strs(snap.get('lazy', []))} {coq_bool(snap.get('tracks_lazy', False))}.\n")
 
 
 # ------------------------------------------------------------------ part D2: another interpreter, another str-hash seed
@@ -1499,21 +1513,33 @@ def run(ck):
     app = pint.application_registry.get()
     R.rid[id(app)] = 0
     pools = [Pool(pint.UnitRegistry(cache_folder=None)), Pool(pint.UnitRegistry(non_int_type=F, cache_folder=None))]
-    objs = part_objects(R, pools, app)
-    part_containers(R)
-    lap("objects + containers")
+    import traceback
+
+    def guarded(name, fn, *a, default=None):
+        """an unexpected exception of the implementation (or of this harness) is a reported outcome, not a crash"""
+        try:
+            return fn(*a)
+        except Exception as e:
+            tb = traceback.format_exc()
+            ck.broken.append(f"stream '{name}' stopped by {type(e).__name__}: {e}"[:300])
+            ck.violation(f"unexpected-exception:{name}:{type(e).__name__}", f"stream '{name}' raised {type(e).__name__}: {e}"[:300],
+                         {"stream": name, "traceback": tb[-3000:]}, no_input=True)
+            return default
+        finally:
+            lap(name)
+    objs = guarded("objects", part_objects, R, pools, app, default=[])
+    guarded("containers", part_containers, R)
     if rows:
-        part_exceptions(R, pools, rows)
-    lap("exceptions")
-    snap0, useq_cases = part_subprocess(R, pools, objs)
-    part_cross_process_hash(R, pools)
-    lap("fresh subprocesses")
-    part_registry_pairs(R)
-    lap("registry pairs")
-    part_lazy(R)
-    lap("lazy vs explicit")
-    part_cross_registry(R)
-    lap("cross-registry operators")
+        guarded("exceptions", part_exceptions, R, pools, rows)
+    snap0, useq_cases = guarded("fresh subprocesses", part_subprocess, R, pools, objs, default=(None, []))
+    guarded("cross-process hash", part_cross_process_hash, R, pools)
+    guarded("registry pairs", part_registry_pairs, R)
+    guarded("lazy vs explicit", part_lazy, R)
+    try:
+        guarded("cross-registry operators", part_cross_registry, R)
+    finally:
+        pint.set_application_registry(app)
+    ck.extra["generated_names_refused"] = sorted({r for p in pools for r in p.rejected})[:40]
 
     # ---------------------------------------------------------------- differ inside Coq
     bad = ck.coq_mismatches("c18", HEADER, [c for c, _ in R.cases], "c18_ok") if built_run else None
